@@ -1110,11 +1110,16 @@ pub fn gen_foreign_spec(rng: &mut Prng, big: bool) -> ForeignSpec {
         handles_open: Vec::new(),
     };
     let validation = rng.chance(800);
-    let nt = rng.usize_below(6);
+    let nt = if big { 1 + rng.usize_below(3) } else { rng.usize_below(6) };
     let mut tables = Vec::new();
     for ti in 0..nt {
         let wide = rng.chance(100);
         let (name, mut cols) = g.gen_plain_table(if wide { 32 } else { 7 });
+        if big && ti == 0 && cols.len() < 32 {
+            let mut c = ColSpec::new("BigS", CType::Str(72));
+            c.nullable = true;
+            cols.push(c);
+        }
         if !validation {
             for c in cols.iter_mut() {
                 // without _Validation only what the type word carries exists
@@ -1125,7 +1130,7 @@ pub fn gen_foreign_spec(rng: &mut Prng, big: bool) -> ForeignSpec {
             }
         }
         let tm = TableM { cols: cols.clone(), rows: Vec::new(), ordered: true, exact_seq: true, plain: true, catalog: false };
-        let nrows = if big && ti == 0 { 200 + rng.usize_below(300) } else if rng.chance(200) { 0 } else { rng.usize_below(24) };
+        let nrows = if big && ti == 0 { 300 + rng.usize_below(300) } else if rng.chance(200) { 0 } else { rng.usize_below(24) };
         let mut rows: Vec<Vec<Val>> = Vec::new();
         let mut keys: Vec<Vec<Val>> = Vec::new();
         for _ in 0..nrows {
@@ -1221,7 +1226,7 @@ pub fn gen_foreign_spec(rng: &mut Prng, big: bool) -> ForeignSpec {
         long_refs,
         tables,
         validation,
-        pool_holes: if rng.chance(500) { rng.below(6) as u32 } else { 0 },
+        pool_holes: if big { 2500 + rng.below(1000) as u32 } else if rng.chance(500) { rng.below(6) as u32 } else { 0 },
         pool_dups: rng.chance(300),
         overcount: if rng.chance(200) { 1 + rng.below(4) as u32 } else { 0 },
         pool_pad: if long_refs && rng.chance(60) { 65_600 } else { 0 },
@@ -1239,6 +1244,7 @@ pub fn gen_foreign_spec(rng: &mut Prng, big: bool) -> ForeignSpec {
         signature: rng.chance(100),
         docsummary: rng.chance(100),
         shuffle_catalog: rng.chance(300),
+        catalog_first: big || rng.chance(200),
     }
 }
 
@@ -1284,8 +1290,9 @@ pub fn generate(property: &str, profile: Profile, seed: u64, run: u64) -> Trace 
         aux_seed: rng.next_u64(),
     };
     let ptype = *rng.pick(&[PType::Installer, PType::Installer, PType::Patch, PType::Transform]);
-    let (init, model) = if profile == Profile::Foreign || (profile == Profile::Corrupt && rng.chance(300)) {
-        let spec = gen_foreign_spec(&mut rng, false);
+    let big_script = profile == Profile::Script && rng.chance(200);
+    let (init, model) = if profile == Profile::Foreign || (profile == Profile::Corrupt && rng.chance(300)) || big_script {
+        let spec = gen_foreign_spec(&mut rng, big_script);
         cp_set = vec![if spec.codepage == 0 { 65001 } else { spec.codepage }];
         alphabet = if spec.codepage == 0 { Vec::new() } else { crate::cp::common_chars(&cp_set) };
         let m = spec.model();
